@@ -61,6 +61,25 @@ def correspondences(tier, rng):
     out.append(Corr("hexStr", cases, lambda d: enc(hexStr(bytes(d))), oracle=lambda d: None if deHexStr(hexStr(bytes(d))) == bytes(d) else "deHexStr(hexStr(x)) != x"))
     hexs = ["".join(rng.choice("0123456789abcdefABCDEF \n\tgz") for _ in range(rng.randint(0, 14))) for _ in range(n // 2)]
     out.append(Corr("deHexStr", hexs, lambda h: res(lambda: list(deHexStr(h))), enc=enc))
+    # bit fields as binary digits
+    from fontTools.misc.textTools import num2binary, binary2num
+    bcases = []
+    for _ in range(N(tier, 800, 10000)):
+        bits = rng.choice([0, 1, 7, 8, 9, 12, 15, 16, 17, 24, 31, 32, 33, 40])
+        v = rng.choice([0, 1, (1 << bits) - 1 if bits else 0, 1 << max(bits - 1, 0), rng.below(1 << bits) if bits else 0, 1 << bits, -1, -2, rng.below(1 << (bits + 3))])
+        bcases.append((v, bits))
+    out.append(Corr("num2binary", bcases, lambda x: res(lambda: [ord(c) for c in num2binary(x[0], x[1])]),
+                    oracle=lambda x: None if not (0 <= x[0] < (1 << x[1])) or binary2num(num2binary(x[0], x[1])) == x[0] else "binary2num(num2binary(%d, %d)) = %d" % (x[0], x[1], binary2num(num2binary(x[0], x[1])))))
+    scases = []
+    for v, bits in bcases[:400]:
+        try: t_ = num2binary(v, bits)
+        except AssertionError: continue
+        r_ = rng.below(5)
+        if r_ == 0: t_ = t_.replace(" ", rng.choice(["", "  ", "\t", "\n "]))
+        elif r_ == 1: t_ = " " + t_ + " "
+        elif r_ == 2 and t_: t_ = t_.replace("1", rng.choice(["1", "x", "2"]), 1)       # any character but '0' counts as a one
+        scases.append(t_)
+    out.append(Corr("binary2num", scases, lambda t_: binary2num(t_), enc=lambda t_: ([ord(c) for c in t_],)))
     return out
 
 # ------------------------------------------------------------------ sweeps
